@@ -538,6 +538,22 @@ def obligations(tier):
             return out
         add("decomposition._cmtf_als:coupled_matrix_tensor_3d_factorization", f"normalize_factors={normalize}", cm_setup, cm_call, cm_post, dict(normalize_factors=normalize),
             "least-squares sites ≡ block problems of the reported objective")
+    # ====================================================================== the descent lemma of HALS rests on a callee contract: every row update of hals_nnls is the EXACT
+    # minimiser of its one-row problem over [eps, inf) at the current other rows - for the plain, the l1-penalised and the ridge-penalised objective. That contract
+    # is discharged here too (the same loop-cut bodies as C13, E1-dense + z3 at enumerated sizes; only the exactness clause is claimed under C07): an exact
+    # coordinate minimiser can never raise the objective it minimises (L1), an inexact one can.
+    from . import c13 as _c13
+    from ..oblig_dense import DOb as _DOb
+    for ob in _c13.obligations(tier):
+        if isinstance(ob, _DOb) and ob.function.endswith(":hals_nnls") and "cold start" not in ob.name:
+            def claims(I, out, ob=ob):
+                sel = [c for c in ob.claims(I, out) if "exact minimiser of its one-row problem" in c[0]]
+                assert sel, "exactness clause missing"
+                return sel
+            parts = ob.name.split("/")
+            obs.append(_DOb(PID, f"{PID}/callee-contract/{parts[1]}/every row update is the exact minimiser of its one-row problem" + ob.name[ob.name.index("["):], ob.function, ob.inputs, ob.call, claims,
+                            params=ob.params, pre=ob.pre, instance=dict(ob.instance, source="C13"), clause="exact coordinate minimisation (hypothesis of the descent lemma L1), plain / l1 / ridge objective",
+                            solver_timeout_ms=ob.solver_timeout_ms, check_domain=ob.check_domain, max_paths=ob.max_paths))
     # ====================================================================== bounded stand-in (never counted as proved): end-to-end native survey - the real
     # entry points, unstubbed, on seeded tensors; a cross-check of the composed contracts on what they assume away (degenerate data, option combinations)
     from .c09 import BoundedOb
